@@ -51,7 +51,12 @@ def recv_name(body, t):
     if root[0] == 'ptr':
         base = root[1]
         if base == ('arg', 1) and path and isinstance(path[0], str):
-            return path[0] if len(path) == 1 else None
+            if len(path) == 1:
+                return path[0]
+            # `if let Some(m) = &mut self.X`: the payload of the Option field itself
+            if len(path) == 2 and isinstance(path[1], str) and path[1].endswith('Some.0'):
+                return path[0]
+            return None
         # &mut *as_mut(&mut self.X).Some.0   /  &mut *as_mut(&mut local X).Some.0
         if base[0] == 'field' and base[2].endswith('Some.0') and base[1][0] == 'call' and base[1][1].endswith('::as_mut') and not path:
             a = base[1][2][0]
@@ -70,6 +75,16 @@ def recv_name(body, t):
 def is_none_branch(e, body, name):
     """branch event saying companion `name` is None on this path"""
     c = e.term
+    # direct match on the Option field / local: discr(self.X)
+    if c[0] == 'discr':
+        d = c[1]
+        nm = None
+        if d[0] == 'field' and d[1] == ('deref', ('arg', 1)):
+            nm = d[2]
+        if nm == name:
+            if e.value == 0:
+                return True
+            return e.value == 'else' and e.args is not None and 1 in e.args
     if c[0] == 'discr' and c[1][0] == 'call' and c[1][1].endswith('::as_mut') and e.value in (0, 'else'):
         a = c[1][2][0]
         if a[0] == 'mref':
